@@ -79,7 +79,7 @@ def generate(rng, tier):
     n_faults = 0 if r < 0.2 else 1 if r < 0.8 else 2
     if flavour == 'imports' or rng.random() < 0.15:
         m = rng.choice(world['modules'])
-        kind = rng.choice(['raise', 'raise', 'syspath', 'syspath', 'print', 'warn_filters', 'warn'])
+        kind = rng.choice(['raise', 'raise', 'syspath', 'syspath', 'print', 'warn_filters', 'warn', 'swap_stdout'])
         f = {'import': m['name'], 'kind': kind}
         if kind == 'warn_filters':
             f['how'] = rng.choice(['ignore', 'error'])
@@ -132,6 +132,8 @@ def generate(rng, tier):
         env['pkgroot_on_path'] = rng.choice([0, 1, 2])
     if colored and rng.random() < 0.6:
         env['no_pygments'] = True
+    if rng.random() < 0.1:
+        env['bad_finder'] = True
     if rng.random() < 0.1:
         # a terminal that cannot show everything (LANG=C), and source text that is not ascii
         env['ascii_terminal'] = True
@@ -224,7 +226,8 @@ def check(rec):
         removed = [x[2] for x in im.get('import_log', []) if x[1] == 'removed']
         body_filter = any(x[1] == 'warnfilter' for x in im.get('import_log', []))
         edited = any(x[1] == 'removed_tmp' for x in im.get('import_log', []))
-        for r, detail in harness.compare_snaps(im['snap0'], im['snap1'], (added, removed, body_filter, edited)):
+        body_swap = any(x[1] == 'swapstdout' for x in im.get('import_log', []))
+        for r, detail in harness.compare_snaps(im['snap0'], im['snap1'], (added, removed, body_filter, edited, body_swap)):
             out.append(common.viol('C12.R5', '%s [%s] after import_module_from_path(%s) %s %s' % (
                 detail, r, im['modpath'], im['how'], im['exc'] or ''),
                 modpath=im['modpath'], how=im['how'], exc=im['exc'], sub=r))
